@@ -454,6 +454,7 @@ class World:
         self.msgs = []        # (due_tick, job_tokens, message)
         self.inflight = []    # messages handed to the scheduler's queue in the current iteration
         self.seq = 0          # creation order of messages (a job's messages are never reordered by a re-send)
+        self.processed = set()   # (instance, submit number, message) handed over in an iteration that ran to its end
         self.first_tick = {}  # (instance, submit number, message) -> iteration in which it was first handed over
         self.sent = {}        # id(TaskMsg) bookkeeping for messages handed to a scheduler: seq by (job, message)
         self.jobs = {}        # (point, name, submit_num) -> dict(outcome)
@@ -861,6 +862,8 @@ async def run_scenario(scn: dict, home: Path) -> dict:
                 schd.message_queue.put(TaskMsg(jt, "2020-01-01T00:00:00Z", "INFO", m))
             n0 = len(REC)
             alive = await sess.tick()
+            if pending_crash is None and schd.message_queue.empty():
+                world.processed.update((tuple(i), sn, m) for _, jt, m, i, sn, seq in due)
             if pending_crash is not None:
                 # the process dies: nothing it had not committed survives
                 CRASH["crashed"] = True
@@ -874,7 +877,7 @@ async def run_scenario(scn: dict, home: Path) -> dict:
                         i_ = [int(jt["cycle"]), jt["task"]]
                         world.msgs.append((tick + 1, jt, m.message, i_, int(jt["job"]),
                                            world.sent.get((tuple(i_), int(jt["job"]), m.message), 0)))
-                        if world.first_tick.get((tuple(i_), int(jt["job"]), m.message), -1) >= tick - 1:
+                        if (tuple(i_), int(jt["job"]), m.message) not in world.processed:
                             # never processed (a duplicate of a message processed in an earlier iteration stays a duplicate)
                             world.first_tick.pop((tuple(i_), int(jt["job"]), m.message), None)
                         ev("undelivered", id=i_, message=m.message)
@@ -900,7 +903,7 @@ async def run_scenario(scn: dict, home: Path) -> dict:
                         i_ = [int(jt["cycle"]), jt["task"]]
                         world.msgs.append((tick + 1, jt, m.message, i_, int(jt["job"]),
                                            world.sent.get((tuple(i_), int(jt["job"]), m.message), 0)))
-                        if world.first_tick.get((tuple(i_), int(jt["job"]), m.message), -1) >= tick - 1:
+                        if (tuple(i_), int(jt["job"]), m.message) not in world.processed:
                             # never processed (a duplicate of a message processed in an earlier iteration stays a duplicate)
                             world.first_tick.pop((tuple(i_), int(jt["job"]), m.message), None)
                         ev("undelivered", id=[int(jt["cycle"]), jt["task"]], message=m.message)
